@@ -81,6 +81,9 @@ THEOREMS = [
     "OllamaVerif.Stop.runN_eq_run",
     "OllamaVerif.Stop.client_view",
     "OllamaVerif.C14.c14_script",
+    "OllamaVerif.C14.genText_prefix_script",
+    "OllamaVerif.C14.cacheKeep_spec",
+    "OllamaVerif.C14.shape_whole",
 ]
 # Model variant the oracle is asked to run: 1 = first listed stop (finding F7, fixed in /repo 6e9857ebf), 0 = earliest
 # occurrence.  NOT a constant any more: decided on every run by executing the real FindStop (regenerate_variant), and
@@ -267,6 +270,21 @@ def run(ctx):
     ctx.read_stats(outdir)
     ctx.l1(outdir, label="L1-llama-loop")
     ctx.classify(ctx.l2(outdir))
+
+    # fail closed when a branch the theorems speak about was never exercised on the real code
+    if not ctx.replay and not ctx.violations:
+        need = ["cause_eos", "cause_limit", "cause_stopstring", "running", "branch_hold_stop_suffix",
+                "branch_hold_incomplete_unicode", "branch_flush_all", "branch_final_flush_trims", "multi_chunk",
+                "trunc_token_truncated", "f20_dropped_bytes", "has_empty_stop", "cachelen_cases",
+                "sched_forced_reads", "sched_backpressure_runs", "sched_quit_cases", "handler_cancelled",
+                "handler_end_at_limit", "handler_reason_length", "handler_reason_stop", "multi_reason_stop",
+                "multi_reason_length", "llama_cause_eos", "llama_cause_limit", "llama_cause_stopstring",
+                "llama_reason_running", "llama_skip_calls", "llama_pending_at_end", "llama_multi_chunk",
+                "llama_f20_dropped_bytes", "llama_cachelen_cases"]
+        missing = [k for k in need if ctx.stats.get(k, 0) <= 0]
+        if missing:
+            ctx.violation("correspondence-coverage", "", "branches the theorems speak about were never exercised on the "
+                          "real code by this run's generators: " + ", ".join(missing), no_input=True)
 
     ctx.assumptions += [
         "after a client disconnect (seq.quit closed) the decode loop's behaviour is not modelled (nondeterministic select); "
